@@ -265,3 +265,102 @@ package web
 //@     ghost outContG := $result0.Cont
 //@   at call encodeCont#2 before
 //@     assert [C03:continuations-handed-back-are-the-ones-the-scan-returned] $arg0 == outContG
+
+// ---------------------------------------------------------------------------
+// C02: GET /datasets/:dataset/changes. The feed is read from the decoded `since` position with the requested limit and
+// latest-only mode, and the token handed back is the encoding of exactly the position that read returned (forward), or
+// of the iterator's next offset (reverse)
+//@ assumed (echo.Context).Param
+//@   pure
+//@ assumed (echo.Context).QueryParam
+//@   pure
+//@ assumed (echo.Context).Response
+//@   pure
+//@ assumed (*echo.Response).Write
+//@   pure
+//@ assumed (*echo.Response).Flush
+//@   pure
+//@ assumed (*echo.Response).WriteHeader
+//@   pure
+//@ assumed (*echo.Response).Header
+//@   pure
+// the token of the change feed is the base64 text of the decimal position: encoding and decoding are inverse
+//@ spec b64valid(s string) bool
+//@ spec b64text(s string) string
+// ASSUMED: encoding/base64 (decode after encode gives the bytes back) and strconv (FormatUint/ParseUint base 10 are inverse)
+//@ assumed (*base64.Encoding).EncodeToString
+//@   pure
+//@   ensures b64valid(result) && b64text(result) == bytesStr(src) && (len(src) > 0 ==> result != "")
+//@ assumed (*base64.Encoding).DecodeString
+//@   pure
+//@   ensures b64valid(s) ==> ret1 == nil && bytesStr(ret0) == b64text(s)
+//@ assumed strconv.FormatUint
+//@   pure
+//@   ensures base == 10 ==> result == itoa(i) && result != ""
+//@ assumed strconv.ParseUint
+//@   pure
+//@   ensures base == 10 && bitSize == 64 ==> (forall n int :: 0 <= n && n <= 18446744073709551615 && s == itoa(n) ==> ret0 == n && ret1 == nil)
+//@ unit web.encodeSince
+//@   prop C02
+//@   ensures [C02:a-token-is-the-valid-base64-text-of-the-decimal-position] b64valid(result) && b64text(result) == itoa(since) && result != ""
+//@ unit web.decodeSince
+//@   prop C02
+//@   ensures [C02:no-token-means-from-the-start] since == "" ==> ret0 == 0 && ret1 == nil
+//@   ensures [C02:decoding-inverts-encoding] since != "" && b64valid(since) ==> (forall n int :: 0 <= n && n <= 18446744073709551615 && b64text(since) == itoa(n) ==> ret0 == n && ret1 == nil)
+//@ assumed (*server.Dataset).ProcessChanges
+//@   pure
+//@ assumed (*server.Dataset).ProcessChangesRaw
+//@   pure
+//@ assumed (*server.Dataset).GetContext
+//@   pure
+//@ assumed dataset.Of
+//@   pure
+//@ assumed (dataset.IterableDataset).At
+//@   pure
+//@ assumed (dataset.Iterator).Inverse
+//@   pure
+//@ assumed (dataset.Iterator).Next
+//@   pure
+//@ assumed (dataset.Iterator).Item
+//@   pure
+//@ assumed (dataset.Iterator).NextOffset
+//@   pure
+//@ assumed (dataset.Iterator).Error
+//@   pure
+//@ assumed (dataset.Iterator).Close
+//@   pure
+//@ assumed server.NewBadgerAccess
+//@   pure
+//@ assumed strconv.ParseInt
+//@   pure
+//@ unit (*datasetHandler).getChangesHandler
+//@   prop C02
+//@   ghost sinceG int = 0
+//@   ghost limitG int = 0
+//@   ghost tokG int = 0
+//@   requires handler != nil && handler.datasetManager != nil
+//@   dyncall preStream pure
+//@   at call ParseInt#1
+//@     ghost limitG := $result0
+//@   at call decodeSince#1 before
+//@     assert [C02:the-since-parameter-of-the-request-is-decoded] $arg0 == since
+//@   at call decodeSince#1
+//@     ghost sinceG := $result0
+//@   at call ProcessChanges#1 before
+//@     assert [C02:feed-read-from-the-decoded-position-with-the-requested-limit-and-mode] $arg1 == sinceG && $arg2 == l && $arg3 == latestOnly && $arg0 == dataset
+//@   at call ProcessChanges#1
+//@     ghost tokG := $result0
+//@   at call encodeSince#2 before
+//@     assert [C02:token-handed-back-is-the-position-the-read-returned] $arg0 == tokG
+//@   at call ProcessChangesRaw#1 before
+//@     assert [C02:feed-read-from-the-decoded-position-with-the-requested-limit-and-mode] $arg1 == sinceG && $arg2 == l && $arg3 == latestOnly && $arg0 == dataset
+//@   at call ProcessChangesRaw#1
+//@     ghost tokG := $result0
+//@   at call encodeSince#3 before
+//@     assert [C02:token-handed-back-is-the-position-the-read-returned] $arg0 == tokG
+//@   at call At#1 before
+//@     assert [C02:reverse-feed-starts-at-the-decoded-position] $arg1 == sinceG
+//@   at call NextOffset#1
+//@     ghost tokG := $result
+//@   at call encodeSince#1 before
+//@     assert [C02:reverse-token-is-the-iterators-next-offset] $arg0 == tokG
